@@ -6,3 +6,5 @@ import TlxVerif.Props.C02
 #print axioms TlxVerif.C02.stats_eq_recount
 #print axioms TlxVerif.C02.clear_ledger
 #print axioms TlxVerif.C02.lifetime_balance
+#print axioms TlxVerif.C02.erase_shape_ledger
+#print axioms TlxVerif.C02.inv_erase_one_partial
